@@ -2,7 +2,7 @@
    the instance for the configuration arc_swap derives from its arguments, the
    link between an accepted trace and a schedule, and the certified checker. *)
 From Coupe Require Import Lib.Prelude Model.ArcSwap Proofs.ArcSwapCut Proofs.ArcSwapProto
-  Proofs.ArcSwapAcct Proofs.ArcSwapCaps Proofs.ArcSwapProgress.
+  Proofs.ArcSwapAcct Proofs.ArcSwapCaps Proofs.ArcSwapProgress Proofs.ArcSwapTerm.
 Open Scope Z_scope.
 
 Lemma critical_phase p v : critical_on p = Some v <-> phase_of p = PhCrit v.
@@ -337,4 +337,53 @@ Proof.
   - apply (go_range _ Hg).
   - unfold part_count. lia.
   - discriminate.
+Qed.
+
+(* ------------------------------------------------------------ termination *)
+
+(* no infinite schedule: whatever the infinite sequence of choices, a finite prefix of it cannot be
+   executed to its end (its last choice is a worker with nothing left to do, or the loop has exited) *)
+Lemma acc_no_infinite_run cf st : Acc (step_rel cf) st ->
+  forall f : nat -> nat, exists m, run cf st (map f (seq 0 m)) = None.
+Proof.
+  induction 1 as [st _ IH]. intros f.
+  destruct (step cf st (f O)) as [st'|] eqn:Hs.
+  - destruct (IH st' (ex_intro _ (f O) Hs) (fun i => f (S i))) as [m Hm].
+    exists (S m). cbn [seq map run]. rewrite Hs, <- seq_shift, map_map. exact Hm.
+  - exists 1%nat. cbn [seq map run]. now rewrite Hs.
+Qed.
+
+Theorem arcswap_terminates cf p0 : graph_ok (cf_g cf) -> length p0 = length (cf_g cf) ->
+  Forall (fun x => (x < cf_k cf)%nat) p0 ->
+  forall st0 sch st, init_state cf p0 = Some st0 -> run cf st0 sch = Some st ->
+  Acc (step_rel cf) st /\ forall f : nat -> nat, exists m, run cf st (map f (seq 0 m)) = None.
+Proof.
+  intros Hg Hl Hids st0 sch st Hi Hr.
+  pose proof (reach_ginv cf p0 Hg Hl Hids st0 sch st Hi Hr) as Hinv.
+  destruct Hg as [H1 H2 H3].
+  assert (A : Acc (step_rel cf) st) by (eapply ginv_acc; eauto).
+  split; [exact A|]. now apply acc_no_infinite_run.
+Qed.
+
+(* with the side conditions of [config_wf]: from every reachable state the run can be completed,
+   and every way of continuing it (always choosing a worker that is not done) ends with the outer
+   loop exited *)
+Theorem arcswap_completes cf p0 : graph_ok (cf_g cf) -> config_wf cf -> length p0 = length (cf_g cf) ->
+  Forall (fun x => (x < cf_k cf)%nat) p0 ->
+  forall st0 sch st, init_state cf p0 = Some st0 -> run cf st0 sch = Some st ->
+  exists sch' st', run cf st sch' = Some st' /\ g_fin st' = true.
+Proof.
+  intros Hg Hwf Hl Hids st0 sch st Hi Hr.
+  destruct (arcswap_terminates cf p0 Hg Hl Hids st0 sch st Hi Hr) as [A _].
+  revert sch Hr. induction A as [st _ IH]. intros sch Hr.
+  destruct (g_fin st) eqn:Hf.
+  - exists [], st. split; [reflexivity|exact Hf].
+  - destruct (arcswap_no_panic cf p0 Hwf Hl Hids) as [_ Hnp].
+    destruct (Hnp st0 sch st Hi Hr Hf) as [_ (t & st1 & Hs)].
+    assert (Hr1 : run cf st0 (sch ++ [t]) = Some st1).
+    { clear - Hr Hs. revert st0 Hr. induction sch as [|a sch IHs]; intros st0 Hr; cbn [run app] in *.
+      - injection Hr as ->. now rewrite Hs.
+      - destruct (step cf st0 a); [|discriminate]. auto. }
+    destruct (IH st1 (ex_intro _ t Hs) _ Hr1) as (sch' & st' & Hr' & Hf').
+    exists (t :: sch'), st'. split; [|exact Hf']. cbn [run]. now rewrite Hs.
 Qed.
